@@ -30,6 +30,7 @@ type scenario struct {
 	Shutdown []shutStep `json:"shutdown"`  // application calls, each fired when the global step counter reaches At
 	LateDial bool       `json:"late_dial"` // a client keeps dialing while the server shuts down
 	BigBox   bool       `json:"big_box"`   // a mailbox with large messages exists (slow-reader ending)
+	Flood    int        `json:"flood"`     // further flag updates per user submitted in a row (while slow readers keep a session blocked)
 }
 
 type clientSc struct {
@@ -45,7 +46,7 @@ type shutStep struct {
 }
 
 var stepKinds = []string{"noop", "capability", "select", "examine", "store", "fetch", "search", "append", "create", "list",
-	"status", "copy", "expunge", "idle", "id", "login-again", "close-box", "move", "uidfetch", "subscribe"}
+	"status", "copy", "expunge", "idle", "id", "login-again", "close-box", "move", "uidfetch", "subscribe", "purge"}
 
 var endings = []string{"logout", "drop", "drop-inflight", "drop-mid-literal", "drop-in-idle", "drop-before-login", "slow-reader", "stay", "stay-idle"}
 
@@ -67,6 +68,7 @@ func makeScenario(seed int64, round int, tier string) *scenario {
 		c.End = endings[rnd.Intn(len(endings))]
 		if c.End == "slow-reader" {
 			sc.BigBox = true
+			sc.Flood = 45
 		}
 		total += len(c.Steps) + 2
 		sc.Clients = append(sc.Clients, c)
@@ -114,6 +116,9 @@ func (sc *scenario) describe() string {
 	if sc.LateDial {
 		b.WriteString("\n  a client keeps dialing while the server shuts down")
 	}
+	if sc.Flood > 0 {
+		fmt.Fprintf(&b, "\n  after its updates the connector submits %d more flag updates per user in a row; slow readers leave after that", sc.Flood)
+	}
 	return b.String()
 }
 
@@ -127,6 +132,7 @@ type roundOut struct {
 	Findings   []finding
 	Events     []rawEvent
 	Commands   int64 // client calls that got a completion
+	Flooded    int64
 	Teardowns  map[string]int
 	Closed     bool // Close returned
 	Fatal      bool // a watchdog fired: the process is not usable for further rounds
@@ -217,6 +223,8 @@ type roundEnv struct {
 	internal  [][]imap.InternalMessageID
 	boxIDs    [][]imap.MailboxID
 	listening int32
+	floodDone chan struct{}
+	slowSent  int32 // slow readers that have sent their FETCH
 }
 
 func (e *roundEnv) find(key, detail string) {
@@ -267,8 +275,8 @@ func (e *roundEnv) setup() error {
 			ids = append(ids, imap.MessageID(id))
 		}
 		if e.sc.BigBox {
-			for i := 0; i < 48; i++ {
-				if err := mk(fmt.Sprintf("big%d-%d", ui, i), boxes[2], 256*1024); err != nil {
+			for i := 0; i < 64; i++ {
+				if err := mk(fmt.Sprintf("big%d-%d", ui, i), boxes[2], 512*1024); err != nil {
 					return fmt.Errorf("big message: %w", err)
 				}
 			}
@@ -396,6 +404,17 @@ func (e *roundEnv) client(ci int, c clientSc, rnd *rand.Rand, wg *sync.WaitGroup
 			_, alive = e.call(ci, "MOVE", func() wire.Result { return cl.Cmd("MOVE 1 box2") })
 		case "expunge":
 			_, alive = e.call(ci, "EXPUNGE", func() wire.Result { return cl.Cmd("EXPUNGE") })
+		case "purge": // removes messages other sessions may still have in their snapshots
+			if selected == "" {
+				_, alive = e.call(ci, "SELECT", func() wire.Result { return cl.Cmd("SELECT box1") })
+				selected = "box1"
+			}
+			if alive {
+				_, alive = e.call(ci, "STORE", func() wire.Result { return cl.Cmd(`STORE 1:2 +FLAGS.SILENT (\Deleted)`) })
+			}
+			if alive {
+				_, alive = e.call(ci, "EXPUNGE", func() wire.Result { return cl.Cmd("EXPUNGE") })
+			}
 		case "append":
 			_, alive = e.call(ci, "APPEND", func() wire.Result { return cl.Append(box, "", lit(fmt.Sprintf("a%d", ci), 200+rnd.Intn(2000))) })
 		case "create":
@@ -440,8 +459,12 @@ func (e *roundEnv) client(ci int, c clientSc, rnd *rand.Rand, wg *sync.WaitGroup
 		// a large answer is requested and never read; the server blocks writing while updates keep arriving
 		cl.Cmd("SELECT big")
 		_ = cl.Write([]byte("S1 FETCH 1:* (BODY[])\r\n"))
+		atomic.AddInt32(&e.slowSent, 1)
 		e.step()
-		e.waitProgressOrShutdown(6)
+		select {
+		case <-e.floodDone:
+		case <-time.After(20 * time.Second):
+		}
 	case "stay", "stay-idle":
 		if c.End == "stay-idle" {
 			// idles until the server ends the session
@@ -509,17 +532,34 @@ func (e *roundEnv) waitServerClose(cl *wire.Client) {
 	}
 }
 
-func (e *roundEnv) waitProgressOrShutdown(n int64) {
-	start := atomic.LoadInt64(&e.progress)
-	deadline := time.Now().Add(5 * time.Second)
-	for time.Now().Before(deadline) && atomic.LoadInt64(&e.progress) < start+n && atomic.LoadInt32(&e.shutting) == 0 {
-		time.Sleep(5 * time.Millisecond)
-	}
-}
-
 // updater submits the scenario's connector updates for every user, one after the other.
 func (e *roundEnv) updater(rnd *rand.Rand, wg *sync.WaitGroup) {
 	defer wg.Done()
+	defer close(e.floodDone)
+	defer func() {
+		if e.sc.Flood > 0 {
+			// provocation only (no verdict depends on it): give a slow reader's session time to block in its write
+			for t := 0; t < 2000 && atomic.LoadInt32(&e.slowSent) == 0 && !e.clientsDone() && atomic.LoadInt32(&e.shutting) == 0; t++ {
+				time.Sleep(5 * time.Millisecond)
+			}
+			time.Sleep(400 * time.Millisecond)
+		}
+		for k := 0; k < e.sc.Flood; k++ {
+			for ui := range e.srv.Users {
+				if atomic.LoadInt32(&e.userDown[ui]) != 0 {
+					continue
+				}
+				ids := e.msgIDs[ui]
+				fl := imap.NewFlagSet()
+				if (k/len(ids))%2 == 0 { // every update changes the flags of its message, so each becomes a state update
+					fl = imap.NewFlagSet(imap.FlagFlagged)
+				}
+				if e.submit(ui, imap.NewMessageFlagsUpdated(ids[k%len(ids)], fl)) == nil {
+					atomic.AddInt64(&e.out.Flooded, 1)
+				}
+			}
+		}
+	}()
 	extra := 0
 	for i, k := range e.sc.Updates {
 		ui := i % len(e.srv.Users)
@@ -692,7 +732,7 @@ func runRound(sc *scenario, rec *recorder) (*roundOut, error) {
 		return nil, err
 	}
 	defer srv.RemoveDir()
-	e := &roundEnv{sc: sc, srv: srv, out: out, userDown: make([]int32, sc.Users), listening: 1}
+	e := &roundEnv{sc: sc, srv: srv, out: out, userDown: make([]int32, sc.Users), listening: 1, floodDone: make(chan struct{})}
 	// a well-behaved application drains the error channel until it is closed
 	go func() {
 		for range srv.S.GetErrorCh() {
